@@ -29,7 +29,8 @@ ASSUMPTIONS = ["freshness is judged on the arrival sequence (V, T) with T the el
 EXPECTED_PROBES = ["reordered", "duplicate", "wraparound", "near_2_23", "time_rule_plus", "time_rule_minus", "final_response",
                    "final_error_code", "icmp_end", "not_observable", "late_notification_con", "late_notification_non",
                    "iterator_busy_at_end", "blockwise_wrapper", "companion_observation", "peer_request_under_observation_token", "wall_clock_step",
-                   "iteration_started_late", "iteration_resumed_with_new_loop", "iterator_wait_timed_out"]
+                   "iteration_started_late", "iteration_resumed_with_new_loop", "iterator_wait_timed_out",
+                   "application_modifies_delivered_notification"]
 
 M24 = 1 << 24
 M23 = 1 << 23
@@ -75,6 +76,8 @@ def gen(r, tier):
                            "by": r.choice([-3600.0, -200.0, -129.0, 129.0, 200.0, 3600.0, 86400.0])})
     events.sort(key=lambda e: e["at"])
     consumer = {"iter": r.choice([None, 0.0, 0.0, 0.05, 0.5, 3.0]), "callbacks": True}
+    if consumer["iter"] is None and r.chance(0.5):
+        consumer["mutate"] = r.choice(["zero", "none", "big", "minus"])
     if consumer["iter"] is not None:
         # how the application consumes: one loop from the start; a loop entered late; waits with time-outs; a second loop
         consumer["style"] = r.weighted([(5, "for"), (2, "timeouts"), (2, "two_loops")])
@@ -113,6 +116,9 @@ def systematic(tier):
                     out.append({"first": {"observe": 9, "delay": 0.005}, "events": events,
                                 "consumer": {"iter": it, "callbacks": True}, "blockwise": False})
                 if n == 3:
+                    for mut in ("zero", "none", "big"):
+                        out.append({"first": {"observe": 9, "delay": 0.005}, "events": events,
+                                    "consumer": {"iter": None, "callbacks": True, "mutate": mut}, "blockwise": bool(len(perm) % 2)})
                     # the ways an application may consume the iterator
                     for cons in ({"style": "for", "start": 2.5}, {"style": "for", "start": 10.0},
                                  {"style": "timeouts", "timeouts": [0.4]}, {"style": "timeouts", "timeouts": [0.4], "start": 1.7},
@@ -277,6 +283,16 @@ def execute(sim, scn):
         def cb(m):
             cb_log.append((loop.now, bytes(m.payload), m.opt.observe, len(sim.events)))
             sim.log("app", "notify", bytes(m.payload).decode(), m.opt.observe)
+            mut = scn["consumer"].get("mutate")
+            if mut is not None:
+                # what it was handed is the application's: a relay re-labels the notification for its own observers,
+                # another strips the option before passing the message on
+                # (a moment later, when it gets round to it -- not from inside the callback)
+                sim.probe("application_modifies_delivered_notification")
+
+                def modify(m=m):
+                    m.opt.observe = {"zero": 0, "none": None, "big": 9000000, "minus": max(0, (m.opt.observe or 0) - 100)}[mut]
+                loop.call_soon(modify)
 
         def eb(e):
             err_log.append((loop.now, e, len(sim.events)))
